@@ -2627,7 +2627,11 @@ static int cfg_opt_print_pff_indent(cfg_opt_t *opt, FILE *fp,
 
 	if (is_set(CFGF_COMMENTS, opt->flags) && opt->comment) {
 		cfg_indent(fp, indent);
-		fprintf(fp, "/* %s */\n", opt->comment);
+		/* a text with star-slash in it would end a C style comment early */
+		if (strstr(opt->comment, "*/") && !strchr(opt->comment, '\n'))
+			fprintf(fp, "# %s\n", opt->comment);
+		else
+			fprintf(fp, "/* %s */\n", opt->comment);
 	}
 
 	if (opt->type == CFGT_SEC) {
